@@ -97,6 +97,28 @@ Definition whitelist_but_position_b (c : lcd_cfg) (d' : doc) : bool :=
                     forallb (fun a => forallb ok (e_styles a)) (flat_map elems_of (echildren r))) (d_regions d') &&
   forallb (fun a => forallb ok (e_styles a)) (body_attrs d') && forallb ok (d_initials d').
 
+(* ---- the domain of the theorems (well-formedness of the canonical model, C15), as executable predicates ------------- *)
+(* region geometry is of its value class and not in em (style_properties.py validate) *)
+Definition not_em (l : len) : bool := negb (unit_eqb (lu l) Uem).
+Definition geometry_typed (m : smap) : bool :=
+  match sget m p_Origin with None => true | Some (VCoord x y) => not_em x && not_em y | Some _ => false end &&
+  match sget m p_Extent with None => true | Some (VExtent h w) => not_em h && not_em w | Some _ => false end &&
+  match sget m p_Position with None => true | Some (VPos h _ v _) => not_em h && not_em v | Some _ => false end.
+Definition inits_typed (m : smap) : bool :=
+  match sget m p_Origin with None | Some (VCoord _ _) => true | Some _ => false end &&
+  match sget m p_Extent with None | Some (VExtent _ _) => true | Some _ => false end.
+Definition lcd_typed (d : doc) : bool :=
+  forallb (fun r => geometry_typed (e_styles (eattrs r))) (d_regions d) && inits_typed (d_initials d).
+
+Fixpoint nodup_z (l : list Z) : bool := match l with [] => true | x :: l' => negb (existsb (Z.eqb x) l') && nodup_z l' end.
+Fixpoint nodup_t (l : list text) : bool := match l with [] => true | x :: l' => negb (existsb (text_eqb x) l') && nodup_t l' end.
+Definition wf_doc_b (d : doc) : bool :=
+  lcd_typed d &&
+  forallb (fun r => nodup_z (skeys (e_styles (eattrs r)))) (d_regions d) &&
+  forallb (fun r => match e_id (eattrs r) with Some _ => true | None => false end) (d_regions d) &&
+  nodup_t (map (fun r => rid (eattrs r)) (d_regions d)) &&
+  refs_resolved_b d.
+
 (* ---- case evaluation ---------------------------------------------------------------------------------------- *)
 Definition on_ok (py : res doc) (f : doc -> bool) : bool := match py with Ok d' => f d' | Err _ => true end.
 (* static clauses of S on the implementation's result; excused = the finding's trigger *)
